@@ -580,6 +580,44 @@ Definition proxy_trailers (tbl : list (str * str)) (hsts : str * str) (deleted t
     end.
 
 (* ------------------------------------------------------------------------------------------ *)
+(* PROTECTIVENESS of a header value (specification, not code): what "hardened" means for the values
+   themselves, so that a weakened table is a violation while strengthening (longer max-age, DENY
+   instead of SAMEORIGIN, extra headers) is not. k is the canonical key.
+     X-Content-Type-Options     = nosniff                                   (ASCII case-insensitive)
+     X-Frame-Options            in {DENY, SAMEORIGIN}                        (case-insensitive)
+     X-Xss-Protection           starts with "1"
+     Strict-Transport-Security  has a directive max-age=<decimal> with value >= 15768000 (six months);
+                                directives separated by ';', optional spaces, names case-insensitive
+     Content-Security-Policy    non-empty, has a default-src directive, and contains none of
+                                "*", "unsafe-inline", "unsafe-eval"            (sso-auth only)
+     Referrer-Policy            non-empty and neither unsafe-url nor no-referrer-when-downgrade (sso-auth only)
+     any other header           no requirement *)
+Fixpoint contains_sub (s p : str) : bool :=
+  has_prefix s p || match s with [] => false | _ :: s' => contains_sub s' p end.
+
+Definition six_months : N := 15768000.
+Definition max_age_ok (directive : str) : bool :=
+  let d := lower_ascii (trim directive) in
+  has_prefix d (bs "max-age=") &&
+  (let n := skipn 8 d in negb (is_nil n) && forallb is_digit n && (six_months <=? dec_value 0 n)).
+
+Definition k_csp : str := bs "Content-Security-Policy".
+Definition k_referrer : str := bs "Referrer-Policy".
+
+Definition protective (k v : str) : bool :=
+  let lv := lower_ascii v in
+  if str_eqb k k_xcto then str_eqb lv (bs "nosniff")
+  else if str_eqb k k_xfo then str_eqb lv (bs "deny") || str_eqb lv (bs "sameorigin")
+  else if str_eqb k k_xxp then match v with c :: _ => N.eqb c 49 | [] => false end
+  else if str_eqb k k_hsts then existsb max_age_ok (split_on 59 v)
+  else if str_eqb k k_csp then
+    negb (is_nil v) && contains_sub lv (bs "default-src") &&
+    negb (contains_sub lv [42]) && negb (contains_sub lv (bs "unsafe-inline")) && negb (contains_sub lv (bs "unsafe-eval"))
+  else if str_eqb k k_referrer then
+    negb (is_nil v) && negb (str_eqb lv (bs "unsafe-url")) && negb (str_eqb lv (bs "no-referrer-when-downgrade"))
+  else true.
+
+(* ------------------------------------------------------------------------------------------ *)
 (* sso-auth: setHeaders(serviceMux) — the table is Set before any handler of the mux runs; the
    handlers Set other keys, add cookies, or call http.Error *)
 
